@@ -34,6 +34,22 @@ func awConfig(rc *RunCtx) {
 		{KeyIdx: 0, Pol: pol, Peer: 1, ErrHandler: r.Bool()},
 		{KeyIdx: 1, Pol: pol, Peer: 0, ErrHandler: r.Bool()},
 	}
+	// how the session comes up: 0 query, 1 whitespace tag (starter sends tagged clear text, the
+	// other side has whitespace-start), 2 Send under require-encryption; policy bits vary accordingly
+	rc.Cfg["startkind"] = r.Intn(3)
+	s := rc.Cfg["starter"]
+	switch rc.Cfg["startkind"] {
+	case 1:
+		rc.Parties[s].Pol |= PolWSTag
+		rc.Parties[1-s].Pol |= PolWSStart
+	case 2:
+		rc.Parties[s].Pol |= PolReqEnc
+	}
+	for i := range rc.Parties {
+		if r.Chance(1, 3) {
+			rc.Parties[i].Pol |= []int{PolWSTag, PolWSStart, PolErrStart}[r.Intn(3)]
+		}
+	}
 }
 
 func newAW(rc *RunCtx) (*AW, *Violation) {
@@ -47,8 +63,19 @@ func newAW(rc *RunCtx) (*AW, *Violation) {
 			aw.ask[p.Idx] = false
 		}
 	})
-	if !w.Handshake(rc.Cfg["starter"]) {
-		return nil, rc.Viol("setup.handshake", "query-initiated AKE over reliable links did not complete", nil)
+	st := w.P[rc.Cfg["starter"]%2]
+	ok := false
+	switch rc.Cfg["startkind"] {
+	case 1, 2:
+		r := st.Send(w.GenText(st, 2, 0))
+		w.Enqueue(st, r)
+		w.Drain(1000)
+		ok = w.P[0].Conv.IsEncrypted() && w.P[1].Conv.IsEncrypted()
+	default:
+		ok = w.Handshake(st.Idx)
+	}
+	if !ok {
+		return nil, rc.Viol("setup.handshake", fmt.Sprintf("AKE (start kind %d) over reliable links did not complete", rc.Cfg["startkind"]), nil)
 	}
 	// deterministic prefix: some traffic with rotations
 	n := rc.Cfg["prefix"]
